@@ -6,7 +6,7 @@ SPEC = {
             "metadynamics with/without grids, keepHills, well-tempered, expandBoundaries, OPES, ABF 1-D/2-D, 2-D with on-the-fly integration, eABF, TI, an "
             "extended-Lagrangian variable with timeStepFactor 2, and six objects that the resuming instance lists in another order) x ALL "
             "trajectory words of length 4 (thorough 5) over {bin a, bin b, exact bin edge, below grid, above grid} "
-            "(x {-1,+2} system force and length 3/4 where total forces are read) x EVERY stop step K x {text, binary} x "
+            "(x {-1,+2} system force and length 3/4 where total forces are read) x EVERY stop step K x {text, binary, text loaded after the resuming instance has evaluated step K once} x "
             "{lagged, same-step} timing; each resumed run is compared step by step and by final state with the "
             "uninterrupted run; the word tree is explored unmerged; states = distinct final saved states, transitions = steps",
     "assumptions": ["trajectories and system forces are scripted (not integrated from Colvars forces)",
